@@ -2,6 +2,8 @@ pub mod closure;
 pub mod c01;
 pub mod c02;
 pub mod c03;
+pub mod c04;
+pub mod c05;
 pub mod c06;
 pub mod c08;
 pub mod c09;
@@ -19,7 +21,7 @@ pub mod c19;
 use crate::engine::{Property, Tier};
 
 pub const ALL: &[&str] = &[
-    "C01", "C02", "C03", "C06", "C08", "C09", "C10", "C11", "C12", "C13", "C14", "C15", "C16", "C17", "C18", "C19",
+    "C01", "C02", "C03", "C04", "C05", "C06", "C08", "C09", "C10", "C11", "C12", "C13", "C14", "C15", "C16", "C17", "C18", "C19",
 ];
 
 pub fn property(id: &str, tier: Tier) -> Option<Property> {
@@ -27,6 +29,8 @@ pub fn property(id: &str, tier: Tier) -> Option<Property> {
         "C01" => c01::property(tier),
         "C02" => c02::property(tier),
         "C03" => c03::property(tier),
+        "C04" => c04::property(tier),
+        "C05" => c05::property(tier),
         "C06" => c06::property(tier),
         "C08" => c08::property(tier),
         "C09" => c09::property(tier),
